@@ -167,6 +167,8 @@ func (c *scriptConn) Write(p []byte) (int, error) {
 	if len(b) >= 20 {
 		if i, ok := c.h.instOfTID(b[8:20]); ok {
 			inst = i
+		} else if i, ok := c.h.instOfRaw(b); ok {
+			inst = i // a request whose header carries another ID than its TransactionID field
 		}
 	}
 	c.mu.Lock()
@@ -236,6 +238,19 @@ func (h *clientHarness) instOfTID(t []byte) (int, bool) {
 	defer h.mu.Unlock()
 	i, ok := h.tidInst[k]
 	return i, ok
+}
+
+// instOfRaw: the latest instance whose request bytes are exactly b
+func (h *clientHarness) instOfRaw(b []byte) (int, bool) {
+	h.mu.Lock()
+	defer h.mu.Unlock()
+	best, ok := -1, false
+	for i, raw := range h.rawOf {
+		if i > best && bytes.Equal(raw, b) {
+			best, ok = i, true
+		}
+	}
+	return best, ok
 }
 
 func (h *clientHarness) noteWriteAttempt(inst int) {
@@ -822,6 +837,14 @@ func response(r *rng, id int, extra int) []byte {
 	if r.chance(1, 4) {
 		typ = r.intn(0x4000) // nor its method: every 14-bit type, first byte up to 0x3f
 	}
+	if r.chance(1, 5) {
+		// an error response with an ERROR-CODE of any class (3xx try-alternate ... 5xx server error, 6xx global):
+		// delivered like any other message, whatever the RFC lets a client do about it
+		code := r.pick([]int{300, 400, 401, 420, 438, 500, 500, 503, 508, 599, 600})
+		ec := append([]byte{0, 0, byte(code / 100), byte(code % 100)}, []byte("reason")...)
+		body = append(body, r.tlv(0x0009, ec, len(ec))...)
+		typ = r.pick([]int{0x0111, 0x0111, 0x0113, 0x0101})
+	}
 	return append(header(typ, len(body), t[:]), body...)
 }
 
@@ -858,7 +881,11 @@ func (g *clientGen) start(fs *[]string, do bool) {
 	if do {
 		hid = 100 + r.intn(5)
 	}
-	*fs = append(*fs, withBytes([]int{1, id, hid}, stunMsg(r, id, size)))
+	raw := stunMsg(r, id, size)
+	if r.chance(1, 8) && len(raw) >= 20 {
+		copy(raw[8:20], r.bytes(12)) // the header carries another ID than the TransactionID field: sent as it is, every time
+	}
+	*fs = append(*fs, withBytes([]int{1, id, hid}, raw))
 	if !g.closed {
 		g.live = append(g.live, id)
 		g.insts++
@@ -1101,6 +1128,11 @@ func runC12(o *out, thorough bool, r *rng, _ []string) map[string]interface{} {
 				fs = append(fs, withBytes([]int{3}, damagedResponse(r, id))) // undecodable, with the ID of a live transaction
 			case 4:
 				fs = append(fs, withBytes([]int{3}, damagedResponse(r, 7000+r.intn(100))))
+			case 5:
+				// one datagram: a response for this transaction followed, after its declared length, by a complete
+				// message carrying ANOTHER live transaction's ID: bytes after the declared length are not a message
+				other := 1 + ids[r.intn(len(ids))]
+				fs = append(fs, withBytes([]int{3}, append(response(r, id, 4), response(r, other, 0)...)))
 			}
 			sz := r.pick([]int{0, 4, 40})
 			if r.chance(1, 20) {
@@ -1113,6 +1145,24 @@ func runC12(o *out, thorough bool, r *rng, _ []string) map[string]interface{} {
 		}
 		o.run(1001, fs, true)
 		o.countN("transactions", k)
+	}
+	// a long run of datagrams that do not decode (more than any "too many errors" threshold one might invent),
+	// then the response: it still reaches its transaction
+	for _, run := range []int{63, 64, 65, 200, 1100} {
+		fs := []string{fNums(1000, 7, 1, 9), withBytes([]int{1, 5, 2}, stunMsg(r, 5, 20))}
+		for k := 0; k < run; k++ {
+			switch k % 3 {
+			case 0:
+				fs = append(fs, withBytes([]int{3}, r.bytes(1+r.intn(30))))
+			case 1:
+				fs = append(fs, withBytes([]int{3}, damagedResponse(r, 5)))
+			default:
+				fs = append(fs, withBytes([]int{3}, []byte{0}))
+			}
+		}
+		fs = append(fs, withBytes([]int{3}, response(r, 5, 4)), fNums(8))
+		o.run(1001, fs, true)
+		o.count("garbage-run-then-response")
 	}
 	// sequential reuse of pooled transaction objects across thousands of transactions
 	reps := 3
@@ -1140,6 +1190,7 @@ func runC15(o *out, thorough bool, r *rng, _ []string) map[string]interface{} {
 		n = 3000
 	}
 	setRTORaceScenario(o, r, 10)
+	closeLivenessScenarios(o, r)
 	for i := 0; i < n; i++ {
 		g := &clientGen{r: r, rto: r.pick([]int{10, 100}), maxA: r.pick([]int{7, 0}), maxSize: 200}
 		fs := g.history(r.rangeIn(0, 12))
@@ -2151,6 +2202,105 @@ func setRTORaceScenario(o *out, r *rng, reps int) {
 		}
 		mu.Unlock()
 		o.count("setrto-racing-retransmissions")
+	}
+}
+
+// stallConn: a connection whose Write blocks (a peer that does not drain) until the connection is closed
+type stallConn struct {
+	closedCh chan struct{}
+	once     sync.Once
+	inWrite  chan struct{}
+	stall    atomic.Bool
+}
+
+func (c *stallConn) Read(p []byte) (int, error) { <-c.closedCh; return 0, io.ErrClosedPipe }
+func (c *stallConn) Write(p []byte) (int, error) {
+	if !c.stall.Load() {
+		return len(p), nil
+	}
+	select {
+	case c.inWrite <- struct{}{}:
+	default:
+	}
+	<-c.closedCh
+	return 0, io.ErrClosedPipe
+}
+func (c *stallConn) Close() error { c.once.Do(func() { close(c.closedCh) }); return nil }
+
+// closeLivenessScenarios: Close returns (and then everything else does) although a writer is stuck in the
+// connection's Write, and although the library's own ticker collector would not tick for an hour
+func closeLivenessScenarios(o *out, r *rng) {
+	for i := 0; i < 6; i++ {
+		conn := &stallConn{closedCh: make(chan struct{}), inWrite: make(chan struct{}, 1)}
+		c, err := stun.NewClient(conn, stun.WithRTO(time.Hour))
+		if err != nil {
+			continue
+		}
+		conn.stall.Store(true)
+		callDone := make(chan error, 1)
+		invoked := make(chan struct{}, 4)
+		go func() {
+			m := &stun.Message{TransactionID: clientTID(9000 + i), Raw: stunMsg(r, 9000+i, 20)}
+			switch i % 3 {
+			case 0:
+				callDone <- c.Indicate(m)
+			case 1:
+				callDone <- c.Start(m, nil)
+			default:
+				callDone <- c.Start(m, func(stun.Event) { invoked <- struct{}{} })
+			}
+		}()
+		select {
+		case <-conn.inWrite:
+		case <-time.After(2 * time.Second):
+		}
+		closeDone := make(chan error, 1)
+		go func() { closeDone <- c.Close() }()
+		what := []string{"Indicate", "Start without a handler", "Start"}[i%3]
+		select {
+		case <-closeDone:
+		case <-time.After(3 * time.Second):
+			o.failFor("C15", "close-did-not-return", fmt.Sprintf("x Close while %s is blocked in the connection's Write (#%d): not back after 3 s", what, i))
+			conn.Close()
+		}
+		select {
+		case <-callDone:
+		case <-time.After(3 * time.Second):
+			o.failFor("C15", "call-blocked-after-close", fmt.Sprintf("x %s blocked in Write does not return after Close (#%d)", what, i))
+		}
+		if err := c.Indicate(&stun.Message{Raw: stunMsg(r, 1, 20)}); !errors.Is(err, stun.ErrClientClosed) {
+			o.failFor("C15", "call-after-close-not-refused", fmt.Sprintf("x after Close with a stalled writer (#%d): Indicate returned %v", i, err))
+		}
+		o.count("close-with-stalled-writer")
+	}
+	for i, rate := range []time.Duration{time.Hour, 24 * time.Hour, time.Minute} {
+		conn := &stallConn{closedCh: make(chan struct{}), inWrite: make(chan struct{}, 1)}
+		c, err := stun.NewClient(conn, stun.WithTimeoutRate(rate), stun.WithRTO(time.Hour))
+		if err != nil {
+			continue
+		}
+		invoked := make(chan stun.Event, 4)
+		_ = c.Start(&stun.Message{TransactionID: clientTID(9100 + i), Raw: stunMsg(r, 9100+i, 20)}, func(e stun.Event) { invoked <- e })
+		before := runtime.NumGoroutine()
+		closeDone := make(chan error, 1)
+		go func() { closeDone <- c.Close() }()
+		select {
+		case <-closeDone:
+			select {
+			case <-invoked:
+			default:
+				o.failFor("C10", "transaction-not-completed-by-close", fmt.Sprintf("x default collector ticking every %v (#%d)", rate, i))
+			}
+			for k := 0; k < 100 && runtime.NumGoroutine() >= before; k++ {
+				time.Sleep(time.Millisecond)
+			}
+			if runtime.NumGoroutine() >= before {
+				o.failFor("C15", "goroutine-leak", fmt.Sprintf("x default collector ticking every %v (#%d): %d goroutines before Close, %d after", rate, i, before, runtime.NumGoroutine()))
+			}
+		case <-time.After(3 * time.Second):
+			o.failFor("C15", "close-did-not-return", fmt.Sprintf("x default collector ticking every %v (#%d): Close not back after 3 s", rate, i))
+		}
+		o.count("close-with-slow-ticker")
 	}
 }
 
